@@ -103,7 +103,8 @@ def make_mean(name, d, bs, rng):
         return gpytorch.means.ZeroMean(batch_shape=bsz)
     if name == "constant":
         m = gpytorch.means.ConstantMean(batch_shape=bsz)
-        m.constant.data.copy_(torch.tensor([dy(rng, -1.5, 1.5, 8) for _ in range(int(np.prod(bs)) if bs else 1)])
+        # never exactly 0: positive-support priors are placed on constant**2 (log density undefined at 0)
+        m.constant.data.copy_(torch.tensor([dy(rng, 0.125, 1.5, 8) * rng.choice([-1, 1]) for _ in range(int(np.prod(bs)) if bs else 1)])
                               .reshape(m.constant.shape))
         return m
     m = gpytorch.means.LinearMean(d, batch_shape=bsz)
